@@ -44,6 +44,8 @@ type PStep struct {
 	AST          bool   `json:"ast"`
 	Tree         bool   `json:"tree"`
 	Pretty       bool   `json:"pretty,omitempty"`
+	Reinit       bool   `json:"reinit,omitempty"`
+	GC           bool   `json:"gc,omitempty"`
 	AbortPred    int    `json:"abort_pred,omitempty"`
 	AbortAct     int    `json:"abort_act,omitempty"`
 	AbortPredSel uint32 `json:"abort_pred_sel,omitempty"`
@@ -200,6 +202,11 @@ func (zzGrammar) New(cfg zzrt.InstCfg, buffer string) zzrt.Instance {
 		return zzNew[uint64](cfg, buffer)
 	case 3:
 		return zzNew[uint](cfg, buffer)
+	case 4:
+		if len(buffer) < 250 {
+			return zzNew[uint8](cfg, buffer)
+		}
+		return zzNew[uint16](cfg, buffer)
 	}
 	return zzNew[uint32](cfg, buffer)
 }
@@ -223,11 +230,17 @@ func zzNew[U Uint](cfg zzrt.InstCfg, buffer string) zzrt.Instance {
 		if cfg.Pretty {
 			opts = append(opts, Pretty[U](true))
 		}
+		// any order of the options must do
+		for k, o := len(opts), cfg.OptOrder; k > 1; k-- {
+			j := o % k
+			o /= k
+			opts[k-1], opts[j] = opts[j], opts[k-1]
+		}
 		return opts
 	}
 	var opts []func(*{{.Struct}}[U]) error
 	if cfg.ShareOpts {
-		key := fmt.Sprintf("%T|%d|%v|%v", *new(U), cfg.Size, cfg.NoMemo, cfg.Pretty)
+		key := fmt.Sprintf("%T|%d|%v|%v|%d", *new(U), cfg.Size, cfg.NoMemo, cfg.Pretty, cfg.OptOrder)
 		// never call into the (woven) parser package while holding the real
 		// mutex: a task parked inside would block the others undetectably
 		zzOptMu.Lock()
@@ -256,6 +269,21 @@ var (
 )
 
 func (i *zzInst[U]) Host() *zzrt.Host   { return i.h }
+
+// Reinit calls Init once more on the same parser (with freshly built options).
+func (i *zzInst[U]) Reinit(cfg zzrt.InstCfg) {
+	var opts []func(*{{.Struct}}[U]) error
+	if cfg.Size > 0 {
+		opts = append(opts, Size[U](cfg.Size))
+	}
+	if cfg.NoMemo {
+		opts = append(opts, DisableMemoize[U]())
+	}
+	if cfg.Pretty {
+		opts = append(opts, Pretty[U](true))
+	}
+	_ = i.p.Init(opts...)
+}
 func (i *zzInst[U]) SetBuffer(s string) { i.p.Buffer = s }
 func (i *zzInst[U]) Reset()             { i.p.Reset() }
 
@@ -800,6 +828,18 @@ func (e *Env) loadCorpus() ([]GrammarSpec, error) {
 		}
 		out = append(out, GrammarSpec{Base: "f" + base, Kind: "fixed", Text: string(text), OptSets: allOptSets, Inputs: inputs, HasHost: true,
 			Salt: simrt.Derive(7, base)})
+	}
+	// more rule numbers than a uint8 can hold (on trees whose emitted code
+	// for such grammars does not compile it is rejected and counted)
+	{
+		var sb strings.Builder
+		sb.WriteString("package zzPKG\n\nimport \"github.com/pointlander/peg/zzsim/simrt\"\n\ntype G Peg {\n\tH *simrt.Host\n}\n\nS <- (A 'x' / Z 'y' / M 'z' / Fill)+ !.\nA <- 'a' <'b'?> { p.H.Act(1, text, begin, end) }\n")
+		for i := 0; i < 262; i++ {
+			fmt.Fprintf(&sb, "F%d <- 'f' F%d / 'g'\n", i, (i+1)%262)
+		}
+		sb.WriteString("Fill <- 'f' F0\nM <- 'a' 'b' 'b'\nZ <- 'a' 'a' / 'a' 'b' 'c'\n")
+		out = append(out, GrammarSpec{Base: "fmany", Kind: "fixed", Text: sb.String(), OptSets: [][]string{{}, {"-inline", "-switch"}},
+			Inputs: []string{"ax", "aay", "abx", "abcy", "abbz", "fg", "ffg", "axaay", "aayax", "abbzabcy", "ay", "", "ffffg", "abz"}, HasHost: true, Salt: simrt.Derive(7, "many")})
 	}
 	sort.Slice(out, func(i, j int) bool { return out[i].Base < out[j].Base })
 	return out, nil
